@@ -114,3 +114,42 @@
 (assert (forall ((v Int) (k Int)) (! (=> (> v 0) (= (bit (bitand v (- v 1)) k) (and (bit v k) (not (= k (tz v)))))) :pattern ((bit (bitand v (- v 1)) k)))))
 ; int -> float64 keeps the sign
 (assert (forall ((v Int)) (! (= (fp.lt (i2f v) ((_ to_fp 11 53) RNE 0.0)) (< v 0)) :pattern ((i2f v)))))
+
+; ---- x-c12: names for the engine's model of the conversion []rune(str) (instr.go convert: str2rune / str2rune.len),
+; so that contracts can talk about "the runes of the Go string str"
+(declare-fun str2rune (Str) (Array Int Int))
+(declare-fun str2rune.len (Str) Int)
+(define-fun runeCnt ((s Str)) Int (str2rune.len s))
+(define-fun runeOfStr ((s Str) (i Int)) Int (select (str2rune s) i))
+; ASSUMED (Go runtime): []rune(str) yields code points only (invalid UTF-8 becomes U+FFFD), never a negative rune
+(assert (forall ((s Str) (i Int)) (! (and (<= 0 (select (str2rune s) i)) (<= (select (str2rune s) i) 1114111)) :pattern ((select (str2rune s) i)))))
+
+; ---- x-c12: Bytes.Format / TupleNameRepr vocabulary ---------------------------------------------------------------
+; reKind re: which of the package-level regular expressions of package rel the *regexp.Regexp re is
+; (1 = renderableBytesRE `^[\a\x08\x1b\f\n\r\t\v -~]+$`, 2 = identRE `\A([$@A-Za-z_][0-9$@A-Za-z_]*)\z`); the
+; globalfacts in rel/verif_contracts_c12.go ASSUME the pattern text of the two variables.
+(declare-fun reKind (Int) Int)
+; bytes the text form <<'...'>> can carry: the class [\a\x08\x1b\f\n\r\t\v -~]
+(define-fun rendByte ((c Int)) Bool (or (and (<= 32 c) (<= c 126)) (and (<= 7 c) (<= c 13)) (= c 27)))
+; bytes of a bare identifier of the grammar (syntax/arrai.wbnf IDENT: [$@A-Za-z_][0-9$@A-Za-z_]*)
+(define-fun identStart ((c Int)) Bool (or (= c 36) (= c 64) (= c 95) (and (<= 65 c) (<= c 90)) (and (<= 97 c) (<= c 122))))
+(define-fun identCont ((c Int)) Bool (or (= c 36) (= c 64) (= c 95) (and (<= 65 c) (<= c 90)) (and (<= 97 c) (<= c 122)) (and (<= 48 c) (<= c 57))))
+; decByte k: the decimal text of the byte k (ASSUMED textbook facts: 1..3 digits; distinct bytes have distinct texts)
+(declare-fun decByte (Int) Str)
+(declare-fun byteOfDec (Str) Int)
+(assert (forall ((k Int)) (! (=> (and (<= 0 k) (<= k 255)) (and (= (byteOfDec (decByte k)) k) (<= 1 (slen (decByte k))) (<= (slen (decByte k)) 3))) :pattern ((decByte k)))))
+; byteList base sep r off n: base followed by the decimal texts of r[off..off+n) separated by sep
+(declare-fun byteListU (Str Str (Array Int Int) Int Int) Str)
+(define-fun byteList ((base Str) (sep Str) (r (Array Int Int)) (off Int) (n Int)) Str (ite (< (slen (decByte 0)) 0) base (byteListU base sep r off n)))
+(assert (forall ((base Str) (sep Str) (r (Array Int Int)) (off Int)) (! (= (byteListU base sep r off 0) base) :pattern ((byteListU base sep r off 0)))))
+(assert (forall ((base Str) (sep Str) (r (Array Int Int)) (off Int) (n Int)) (! (=> (>= n 0)
+   (= (byteListU base sep r off (+ n 1))
+      (sconcat (ite (> n 0) (sconcat (byteListU base sep r off n) sep) (byteListU base sep r off n)) (decByte (select r (+ off n))))))
+   :pattern ((byteListU base sep r off n)))))
+; the engine's model of []byte(str): byte i of the slice is byte i of the string (Go semantics)
+(declare-fun str2byte (Str) (Array Int Int))
+(assert (forall ((s Str) (i Int)) (! (= (select (str2byte s) i) (sat s i)) :pattern ((select (str2byte s) i)))))
+; //bits.mask: fpow = math.Pow (uninterpreted), fadd = float64 addition (round to nearest even, as Go)
+(declare-fun fpow (F F) F)
+(define-fun fadd ((a F) (b F)) F (fp.add RNE a b))
+(define-fun fpow2 ((y F)) F (fpow ((_ to_fp 11 53) RNE 2.0) y))   ; math.Pow(2, y)
